@@ -1126,10 +1126,22 @@ func opValueStateVarJournal(ctx context.Context, pc *uint64, interpreter *EVMInt
 }
 
 func loadDataFromMem(memPtr *uint256.Int, mem *Memory) ([]byte, uint64, error) {
-	offset := int64(memPtr.Uint64())
-	dataLen := new(uint256.Int).SetBytes(mem.GetCopy(offset, 32))
 	if !memPtr.IsUint64() {
 		return nil, 0, errors.New("mem data too long")
+	}
+
+	// the length word and the data it announces must lie within the memory
+	// the frame has allocated (and paid for), nothing is read beyond it
+	memLen := uint64(mem.Len())
+	ptr := memPtr.Uint64()
+	if ptr > memLen || memLen-ptr < 32 {
+		return nil, 0, errors.New("mem data out of range")
+	}
+
+	offset := int64(ptr)
+	dataLen := new(uint256.Int).SetBytes(mem.GetCopy(offset, 32))
+	if !dataLen.IsUint64() || dataLen.Uint64() > memLen-ptr-32 {
+		return nil, 0, errors.New("mem data out of range")
 	}
 
 	return mem.GetCopy(offset+32, int64(dataLen.Uint64())), dataLen.Uint64(), nil
